@@ -184,7 +184,9 @@ def run(ctx):
                 if e["stmt"].kind == "pragma":
                     npr += 1
                     nm = e["stmt"].extra["name"]
-                    ok = nm in NO_FILE_EFFECT
+                    from .shared import PRAGMA_TUNING, PRAGMA_QUERIES
+                    ok = nm in NO_FILE_EFFECT or nm in PRAGMA_TUNING or \
+                        (e["stmt"].extra["value"] is None and nm in PRAGMA_QUERIES)
                     ctx.ob("R19.ro", "%s: PRAGMA %s does not write the file" % (e["func"], nm),
                            ok, e, "" if ok else "PRAGMA %s=%s changes a persistent property "
                            "of the database file as soon as it is opened, i.e. before a "
